@@ -175,7 +175,33 @@ def apply(tops, op, tmp):
             os.unlink(fn)
         first = op[2] if len(op) > 2 else None
         mode = op[3] if len(op) > 3 else "w"
-        if first is None:
+        if mode in ("handle", "iter"):
+            # several loads through ONE open handle / one chunked iteration: each must be an independent object.
+            # The first load is scribbled on before the next one is taken; the later load is what is kept.
+            md.Trajectory(np.zeros((3, t.n_atoms, 3), dtype=np.float32), t).save_hdf5(fn)
+
+            def scribble(a):
+                for r in a.residues:
+                    r.name = "ZZZ"
+                    r.resSeq = 77
+                for c in a.chains:
+                    c.chain_id = "q"
+                if a.n_atoms:
+                    a.delete_atom_by_index(0)
+                a.add_chain("Q")
+            if mode == "handle":
+                with HDF5TrajectoryFile(fn, "r") as f:
+                    scribble(f.topology)
+                    scribble(f.read_as_traj(n_frames=1).topology)
+                    f.seek(0)
+                    scribble(f.read_as_traj(n_frames=1, atom_indices=[0]).topology)
+                    tops.append(f.topology)
+            else:
+                it = md.iterload(fn, chunk=1)
+                scribble(next(it).topology)
+                tops.append(next(it).topology)
+                it.close()
+        elif first is None:
             traj_of(t).save_hdf5(fn)
             tops.append(md.load(fn).topology)
         elif mode == "setter":           # low-level: the topology attribute is stored twice, no frames
